@@ -7,20 +7,26 @@ SPEC = {
     "driver": "Driver/C13.lean",
     "needs_plz": False,
     "level": "proof",
-    "level_text": "Theorems over an entry-stream model of httpCache/cmdCache Store and Retrieve: every retrieve-side fault (transport "
-                  "cut, short entry, failing retrieve command, nothing stored) is a miss (full); fault-free round trip (full); store "
-                  "side PARTIAL: the HTTP store commits after a read error - a miss later only when a short body was written "
-                  "(C13_http_partial), a HIT lacking the file when the output had vanished (C13_http_witness), and the full statement "
-                  "if the error were passed to the request (C13_http_if_error_propagates); the command store leaves a boundary-cut "
-                  "archive with `cat > $KEY` (C13_cmd_witness) and, for a commit-on-success command, nothing only if the asynchronous "
-                  "kill beats the pipe's close (C13_cmd_atomic_if_kill_wins / C13_cmd_atomic_race_witness).  All three store-side "
-                  "failures were observed on the real code.  Not modelled: gzip/tar bytes, HTTP retries, the server (assumed to commit "
-                  "exactly the requests whose body ended without error), partial restores left in plz-out by a missed retrieve.",
+    "level_text": "Theorems over an entry-stream model of httpCache/cmdCache Store and Retrieve.  RETRIEVE side: every fault (transport cut, "
+                  "short entry, failing retrieve command, nothing stored, and - command cache only - a stream without tar's end marker) is a "
+                  "miss; these are how the model's retrieve functions are DEFINED, so the theorems are one-liners and the weight is on the tie: "
+                  "one regenerated fact per return statement of readTar, the 404/non-200 arms, the exit-status conjunction, the fact that "
+                  "cmdCache.Retrieve's input never ends cleanly, and correspondence runs with the body cut at 2/5/30/60 %.  Fault-free round trip "
+                  "(full, by induction over the writer).  STORE side PARTIAL: the HTTP store commits after a read error - a miss later only when "
+                  "a short body was written (C13_http_partial, via a writer invariant), a HIT lacking files when the output had vanished or a "
+                  "zero-length file was unreadable (two witnesses), and the full statement if the error were passed to the request "
+                  "(C13_http_if_error_propagates).  Command store: after a read fault write() cancels AND finishes the archive, so `cat > $KEY` "
+                  "keeps a well-formed archive that stops at the failed output (C13_cmd_witness) and a commit-on-success command commits it when "
+                  "the asynchronous kill loses (C13_cmd_atomic_race_witness; nothing if it wins); every other leftover - a prefix cut anywhere, "
+                  "what a store command that failed by itself wrote - is a miss (C13_cmd_naive_cut_is_miss, C13_cmd_command_failure).  Both "
+                  "deterministic store-side failures and, three times under load, the race were observed on the real code.  Not modelled: "
+                  "gzip/tar bytes, HTTP retries, the server (assumed to commit exactly the requests whose body ended without error), partial "
+                  "restores left in plz-out by a missed retrieve.",
     "technique": "Lean 4 theorems over a stream model + regenerated facts + differential correspondence through cache.NewCache (Workers=0) against a loopback HTTP server and sh -c commands, read faults by vanished / mode-000 outputs (Store re-executed as uid nobody when the harness is root), transport faults by dropped connections",
     "trusted": [
         "go/ast extractor harness/extract/c13 (what each writer does on a walk error, deferred closes, Lstat/header/Open/copy order in storeFile, readTar and retrieve error handling, exit-status conjunction in cmdCache.Retrieve)",
-        "correspondence harness/cmd/c13 vs Driver/C13.lean: commit yes/no and the later Retrieve's result; for the command cache the state the store command left is MEASURED (entries, cut or not) and handed to the model, which also checks it is a state it allows",
-        "the loopback server's commit rule; archive/tar: end-of-input at an entry boundary is the end of the archive (observed, and a regenerated fact of readTar), a short body is an error",
+        "correspondence harness/cmd/c13 vs Driver/C13.lean: commit yes/no and the later Retrieve's result; for the command cache the state the store command left is MEASURED block by block (entries, last one cut or not, end marker or not) and handed to the model, which also checks it is a state it allows",
+        "the loopback server's commit rule; archive/tar: a real end-of-input at an entry boundary is the end of the archive (HTTP path), a short body is an error; the command cache's pipe never delivers a real end-of-input (regenerated fact), so there only the end marker ends an archive",
         "modelled, not verified: Model/RemoteCache.lean",
     ],
     "assumptions": [
@@ -31,5 +37,46 @@ SPEC = {
 }
 
 MUTATIONS = """
-(filled in after the dry-runs)
+Dry-runs on scratch copies (VERIF_REPO=/var/tmp/mC13<k> ./check C13 quick, findings inbox loaded), all compile.
+This property's machinery was corrected several times BY its dry-runs and probes; the history is kept because it says
+what each piece is for.
+
+A  readTar: the non-EOF error arm after tr.Next() returns `true, err`
+   -> first attempt caught only by the facts (`no-failing-input-found`): every cut-body case errored in the io.Copy arm
+   (tar headers compress so well that a 60 % cut always lands inside a body) and one lumped fact covered all arms.
+   Repaired: one fact per return statement of readTar, cuts at 2/5/30/60 %, store commands that fail by themselves.
+   -> re-run: exit 1, 17/18, 14 disagreements, failing input class cmd-naive-store-keeps-partial-archive-after-command-failure
+   (a leftover without end marker becomes a hit).
+B  cmdCache.Retrieve: `return tarOk` (exit status of the retrieve command ignored)
+   -> exit 1, 17/18, 11 disagreements, failing input class hit-after-retrieve-command-failure.
+C  storeFile: os.Open before tw.WriteHeader (an unreadable file then leaves no header)
+   -> exit 1, 17/18, 25 disagreements, failing input class http-hit-despite-short-body.  (That class exists because the first
+   class boundary, "hit after an unreadable output", was wrong: on the pinned tree an unreadable ZERO-LENGTH file gives a
+   complete entry, the rest of its directory is dropped and the archive commits - same root cause as a vanished output.)
+D  cmd write(): the `cancel()` before `return` deleted
+   -> first attempt caught only by the facts: the deterministic commit hid under the known RACE class.  Repaired: a run-level
+   rate oracle (a commit-on-success command committed after MORE THAN HALF of >= 10 read faults).
+   -> re-run: exit 1, 17/18, failing input class cmd-store-not-cancelled-after-read-error.
+E  the FIX: httpCache.write takes *io.PipeWriter and on a walk error does w.CloseWithError(err); return
+   -> exit 1 by design (16/18): C13_http_witness and C13_http_witness_empty_unreadable are stated on the generated facts and stop
+   holding; oracle: class http-store-commits-after-read-error NOT reproduced, no new class, 0 disagreements - the model follows
+   the fix through the facts (httpPropagates).  Restating the witnesses as conditional belongs to the fix phase.
+F  harmless: httpCache.write's locals renamed (gzw, out, outDir)
+   -> first attempt RED (a false alarm): the fact httpDeferred, added the same day, compared `gzw.Close` by NAME.
+   Repaired: deferred closes are listed by the role of what is closed (pipe / gzip / tar).  -> re-run: exit 0, 18/18, 0 disagreements.
+S  seeded change /tmp/seedout/C13/patch.diff: cmdCache.Retrieve's waiter closes the WRITE end of the pipe instead of the read end
+   -> exit 1, 17/18 (fact cmdRetrieveInputNeverEndsCleanly flips), 9 disagreements, failing input class
+   cmd-naive-store-keeps-partial-archive-after-command-failure: a stream cut at an entry boundary now ends cleanly and is a HIT.
+
+Model corrections forced by the real code (each found by running a predicted case before claiming it):
+  * a vanished name inside a DIRECTORY output is not a fault (the walk never lists it): `v` only as an output itself;
+  * a commit-on-success store command does commit after a read fault now and then (the kill is asynchronous): the assumption
+    "the kill wins" became the hypothesis of C13_cmd_atomic_if_kill_wins, with a witness for the other branch;
+  * the command cache's reader NEEDS tar's end marker (its pipe never delivers end-of-input; Retrieve closes the read end):
+    a boundary cut is a miss there - a finding I had written down for failing store commands did not exist and was withdrawn;
+  * the store state is measured block by block (PAX records of non-ASCII names broke the first measurement).
+
+Unchanged tree: exit 0, 18/18, 263 cases, 0 disagreements, oracle failures only in the listed classes; the race finding is
+`NOT reproduced` on most runs.  Quick wall 214 s .. 1678 s for 3-4 CPU-min (shared lake lock; load average 40-150 on 16 cores).
+Thorough tier NOT run yet.
 """
